@@ -21,12 +21,27 @@ for (sa, wa, sb, wb, alias) in cases:
         r = {"ok": True, "ra": [ra.signed, ra.bit_width], "rb": [rb.signed, rb.bit_width],
              "ra_is_a": ra is a, "rb_is_b": rb is b, "ra_is_rb": ra is rb,
              "a_after": [a.signed, a.bit_width], "b_after": [b.signed, b.bit_width]}
+        # history: results that are new objects are modified by the caller (as simplify_unary_expr does), then the
+        # same question is asked again with fresh arguments: the answer must not depend on that
+        for x in (ra, rb):
+            if x is not a and x is not b:
+                x.signed = not x.signed
+                x.bit_width = 8 if x.bit_width != 8 else 16
+        a2 = ValueType(bool(sa), wa)
+        b2 = a2 if alias else ValueType(bool(sb), wb)
+        r2a, r2b = c11_cast(a2, b2)
+        r["r2a"] = [r2a.signed, r2a.bit_width]; r["r2b"] = [r2b.signed, r2b.bit_width]
     except Exception as e:
         r = {"ok": False, "exc": type(e).__name__}
     try:
         p = promoted_type(a)
         r["prom"] = [p.signed, p.bit_width]; r["prom_is_a"] = p is a
         r["a_after_prom"] = [a.signed, a.bit_width]
+        if p is not a:
+            p.signed = not p.signed
+            p.bit_width = 8
+        p2 = promoted_type(ValueType(bool(sa), wa))
+        r["prom2"] = [p2.signed, p2.bit_width]
     except Exception as e:
         r["prom_exc"] = type(e).__name__
     out.append(r)
@@ -63,7 +78,7 @@ def coq_case(c, r):
     f = lambda t: f"(mk {b(t[0])} {t[1]})"
     return (
         f"(({f((sa, wa))}, {f((sb, wb))}, {b(alias)}), ({f(r['ra'])}, {f(r['rb'])}, {b(r['ra_is_a'])}, {b(r['rb_is_b'])}),"
-        f" ({f(r['a_after'])}, {f(r['b_after'])}), ({f(r['prom'])}, {b(r['prom_is_a'])}, {f(r['a_after_prom'])}))"
+        f" ({f(r['a_after'])}, {f(r['b_after'])}), ({f(r['prom'])}, {b(r['prom_is_a'])}, {f(r['a_after_prom'])}), ({f(r['r2a'])}, {f(r['r2b'])}, {f(r['prom2'])}))"
     )
 
 
@@ -74,29 +89,32 @@ From RZ.sem Require Import CTypesN.
 Import ListNotations.
 Local Open Scope N_scope.
 Definition mk (s : bool) (w : N) : vt := {{| vsigned := s; vbw := w |}}.
-Definition case := ((vt * vt * bool) * (vt * vt * bool * bool) * (vt * vt) * (vt * bool * vt))%type.
+Definition case := ((vt * vt * bool) * (vt * vt * bool * bool) * (vt * vt) * (vt * bool * vt) * (vt * vt * vt))%type.
 """
 
 MODEL_CHECK = """
 (* correspondence: generated model vs what Python did (values, identity, mutation) *)
 Definition agrees (c : case) : bool :=
-  let '((A, B, alias), (RA, RB, ra_is_a, rb_is_b), (A', B'), (P, p_is_a, A'')) := c in
+  let '((A, B, alias), (RA, RB, ra_is_a, rb_is_b), (A', B'), (P, p_is_a, A''), (R2A, R2B, P2)) := c in
   let h := if alias then [A] else [A; B] in
   let bl := if alias then 0%nat else 1%nat in
   let '(h', (ra, rb)) := c11_cast h 0%nat bl in
   let '(hp, rp) := promoted_type h 0%nat in
   vt_eqb (rd h' ra) RA && vt_eqb (rd h' rb) RB && Bool.eqb (Nat.eqb ra 0) ra_is_a && Bool.eqb (Nat.eqb rb bl) rb_is_b
   && vt_eqb (rd h' 0%nat) A' && vt_eqb (rd h' bl) B'
-  && vt_eqb (rd hp rp) P && Bool.eqb (Nat.eqb rp 0) p_is_a && vt_eqb (rd hp 0%nat) A''.
+  && vt_eqb (rd hp rp) P && Bool.eqb (Nat.eqb rp 0) p_is_a && vt_eqb (rd hp 0%nat) A''
+  (* the model is a function of the heap it is given: asked again with fresh objects it gives the same answer *)
+  && vt_eqb (rd h' ra) R2A && vt_eqb (rd h' rb) R2B && vt_eqb (rd hp rp) P2.
 """
 
 SPEC_CHECK = """
 (* oracle: what Python did vs the C11 table (used to find a failing input) *)
 Definition meets_spec (c : case) : bool :=
-  let '((A, B, alias), (RA, RB, ra_is_a, rb_is_b), (A', B'), (P, p_is_a, A'')) := c in
+  let '((A, B, alias), (RA, RB, ra_is_a, rb_is_b), (A', B'), (P, p_is_a, A''), (R2A, R2B, P2)) := c in
   let B0 := if alias then A else B in
   vt_eqb RA (uac A B0) && vt_eqb RB (uac A B0) && vt_eqb A' A && vt_eqb B' B0
-  && vt_eqb P (promote A) && vt_eqb A'' A && (if 32 <=? vbw A then p_is_a else true).
+  && vt_eqb P (promote A) && vt_eqb A'' A && (if 32 <=? vbw A then p_is_a else true)
+  && vt_eqb R2A (uac A B0) && vt_eqb R2B (uac A B0) && vt_eqb P2 (promote A).
 """
 
 TAIL = """
@@ -192,7 +210,7 @@ def run(tier: str) -> int:
     for i in spec_fail[:1]:
         d = describe(i)
         d["what"] = "c11_cast / promoted_type result differs from the C11 table, or an argument was modified"
-        d["expected"] = "uac/promote of sem/CTypesN.v; arguments unchanged"
+        d["expected"] = "uac/promote of sem/CTypesN.v; arguments unchanged; the same answer when asked again after the caller modified the first (fresh) results"
         d["broken"] = [vars(x) for x in broken]
         res.violation(d)
         seen += 1
@@ -219,7 +237,8 @@ def run(tier: str) -> int:
         "distinct_nontrivial": len({(c[0], c[1], c[2], c[3]) for c in cases if (c[0], c[1]) != (c[2], c[3])}),
         "rule": "K1: ordered pairs (signed,width)x(signed,width) over the listed widths plus aliased pairs; a case is "
                 "non-trivial when the two types differ (c11_cast takes a copying path); compared: result values, identity "
-                "of results with arguments, argument values after the call, promoted_type result/identity",
+                "of results with arguments, argument values after the call, promoted_type result/identity; history: the fresh result objects are "
+                "modified by the caller and the same pair is asked again with fresh arguments",
         "widths": widths,
         "samples": [describe(i) for i in (0, len(cases) // 2, len(cases) - 1)] if pyres else [],
         "exhaustive": False,
